@@ -17,9 +17,12 @@ pub fn gen(ctx: &mut Ctx) {
         let mut a3 = simple_auth(ctx, "https://www.example.com", Some("example.com")); a3.allow = Some(vec![]);
         let mut a4 = simple_auth(ctx, "https://www.example.com", Some("example.com")); a4.allow = Some(vec![vec![9, 9, 9]]); a4.allow_refs = vec![0];
         let a5 = simple_auth(ctx, "https://accounts.example.org", None);
+        // descriptors of a credential type this library does not know, naming nothing that is held
+        let mut a6 = simple_auth(ctx, "https://www.example.com", Some("example.com")); a6.allow = Some(vec![vec![8, 8, 8], vec![7, 7]]); a6.unk = vec![0, 1];
+        let mut a7 = simple_auth(ctx, "https://www.example.com", Some("example.com")); a7.allow = Some(vec![vec![8, 8, 8]]); a7.allow_refs = vec![0]; a7.unk = vec![0];
         let before = simple_auth(ctx, "https://www.example.com", Some("example.com"));
         run_ccase(ctx, "C03", &w, &[cstep(COp::Auth(before)), cstep(COp::Reg(r)),
-            cstep(COp::Auth(a0)), cstep(COp::Auth(a1)), cstep(COp::Auth(a2)), cstep(COp::Auth(a3)), cstep(COp::Auth(a4)), cstep(COp::Auth(a5))]);
+            cstep(COp::Auth(a0)), cstep(COp::Auth(a1)), cstep(COp::Auth(a2)), cstep(COp::Auth(a3)), cstep(COp::Auth(a4)), cstep(COp::Auth(a5)), cstep(COp::Auth(a6)), cstep(COp::Auth(a7))]);
         ctx.stat("c03.corpus");
     }
     let n = if ctx.thorough { 1200 } else { 120 };
@@ -52,7 +55,7 @@ pub fn gen(ctx: &mut Ctx) {
                     1 => { a.allow = Some(vec![]); }                          // empty
                     2 => { a.allow_refs = vec![ctx.rng.below(8) as usize]; }  // one registered id (maybe of another RP)
                     3 => { a.allow_refs = (0..ctx.rng.range(1, 3)).map(|_| ctx.rng.below(8) as usize).collect(); a.allow = Some(vec![ctx.rng.bytes(16)]); } // unknown + known
-                    4 => { a.allow = Some(vec![ctx.rng.bytes(16), ctx.rng.bytes(5)]); } // unknown only
+                    4 => { a.allow = Some(vec![ctx.rng.bytes(16), ctx.rng.bytes(5)]); if ctx.rng.bool() { a.unk = vec![0, 1]; } } // unknown only, half of them of an unknown credential type
                     _ => { a.allow_refs = (0..regs).collect(); }               // all
                 }
                 if one_site && a.allow.is_none() && a.allow_refs.is_empty() && ctx.rng.bool() { a.allow_refs = vec![0]; }
